@@ -38,6 +38,12 @@ ALLOW_C12 = {
     ],
 }
 
+ALLOW_C06 = {
+    'direct-write': [
+        ('error_997', 'error_997_visitor._write', 'the one write primitive of the 997 visitor: under contract (writes the segment once, counts it once)'),
+    ],
+}
+
 
 def allowed(finding, table):
     for (mod, prefix, reason) in table.get(finding.rule, ()):
